@@ -306,6 +306,8 @@ def run(ctx: Ctx) -> None:
         def __init__(self, din: int, dh: int, flags: Dict[str, bool]) -> None:
             super().__init__()
             self.lin = nn.Linear(din, dh)
+            with torch.no_grad():
+                self.lin.bias.zero_()                         # a tensor whose standard deviation is exactly 0
             self.w = nn.Parameter(torch.randn(dh))
             self.register_buffer("shift", torch.randn(dh))
             self.flags, self.dh = flags, dh
@@ -323,6 +325,7 @@ def run(ctx: Ctx) -> None:
                 out = torch.add(out, F_.one_hot(torch.argmax(a, dim=-1), self.dh).to(x.dtype))   # int -> float: no grad
             if f["pos"]:
                 out = torch.add(out, pos)                       # float input that does not require grad
+            out = torch.mul(out, torch.ones_like(out))          # constant tensor: std 0, no gradient
             return torch.sin(out)
 
     class Probe(torch.fx.Interpreter):
@@ -417,3 +420,43 @@ def run(ctx: Ctx) -> None:
                 ctx.violation("C18:analyse-fwd", f"forward scale of `{nm}`: shown {ann[0]}, true {pr.fwd[nm]:.4}", key)
             if not shown_ok(ann[1], pr.grads.get(nm)):
                 ctx.violation("C18:analyse-bwd", f"backward scale of `{nm}`: shown {ann[1]}, true {pr.grads.get(nm, 'n/a')}", key)
+
+    # ---- one tracked module, two compilations: after a call that Dynamo has to re-trace (train -> eval drops a branch, so
+    #      the new graph is smaller) scales_graph() describes the LAST call, not an earlier one
+    class Branchy(nn.Module):
+        def __init__(self) -> None:
+            super().__init__()
+            self.l = nn.Linear(6, 6)
+
+        def forward(self, x):  # type: ignore[no-untyped-def]
+            h = self.l(x)
+            if self.training:
+                h = torch.tanh(h) * 2.0 + 1.0
+                h = torch.relu(h)
+            return h * 3.0
+
+    key = {"path": "dynamo", "family": "recompile to a smaller graph (train -> eval)"}
+    ctx.count(key, bucket="dynamo/recompile")
+    with ctx.guard("C18:recompile", key):
+        torch.manual_seed(21)
+        tm = track_scales(Branchy())
+        tm.train()
+        x1 = torch.randn(5, 6)
+        tm(x1).sum().backward()
+        n1 = len(list(tm.scales_graph().nodes))
+        tm.eval()
+        x2 = torch.randn(9, 6) * 4.0
+        y2 = tm(x2)
+        g2 = tm.scales_graph()
+        ins = [n for n in g2.nodes if n.op == "placeholder" and n.meta.get("metrics") is not None
+               and n.meta["metrics"].fwd.numel == x2.numel()]
+        want_in = stats(x2)
+        if not any(same_stats(n.meta["metrics"].fwd, want_in) is None for n in ins):
+            ctx.violation("C18:stale-graph", "after a second call that was re-traced, scales_graph() still describes an earlier "
+                          "call (no node records the statistics of the new input)", key,
+                          {"nodes_first": n1, "nodes_now": len(list(g2.nodes))})
+        outs_ = [n for n in g2.nodes if n.meta.get("metrics") is not None and n.meta["metrics"].fwd.numel == y2.numel()]
+        if not any(same_stats(n.meta["metrics"].fwd, stats(y2.detach())) is None for n in outs_):
+            ctx.violation("C18:stale-graph", "scales_graph() has no node with the statistics of the last output", key)
+        if any(n.meta.get("metrics") is not None and n.meta["metrics"].bwd is not None for n in g2.nodes):
+            ctx.violation("C18:bwd-stale", "backward metrics reported after a forward-only call", key)
